@@ -12,6 +12,13 @@ def run_render(rep, ctx, label, observers, n_quick, n_thorough, corr_fraction=1.
                extra_pairs=(), big=False, url_rules='jsessionid', small_caps=False, small_scope=True):
     tier = ctx['tier']
     rng = rng_for(ctx['seed'], label)
+    # a worker process serves every differ: let the others run first (a differ's result must not depend on that)
+    try:
+        from web_monitoring_diff import html_links_diff as _hl, basic_diffs as _bd
+        _w = ('<p>warm <a href="/x"><img src="i.png" alt="up">link</a> <video src="v"><p>f</p></video></p>', '<p>warm <a href="/y">link</a> text</p>')
+        _hl.links_diff_json(*_w), _hl.links_diff_html(*_w), _bd.html_text_diff(*_w), _bd.html_source_diff(*_w), _bd.side_by_side_text(*_w)
+    except Exception:  # noqa
+        pass
     n = n_quick if tier == 'quick' else n_thorough
     docs = rc.documents(rng, n) + list(extra_pairs)
     n_scope = 0
